@@ -236,6 +236,29 @@ def shard(ctx):
         (iso3, options), perts = case
         run_case(ctx, iso3, options, perts, "c12_%d_%d" % (ctx.shard, ctx.evaluations))
     drive(ctx, st.tuples(case_strategy(), st.lists(perturbation(), min_size=6, max_size=6)), body, 60 if thorough else 3, shrink=False, tag="runs")
+    # the extreme rows of the input table (smallest and largest populations: population-dependent branches and absolute tolerances sit
+    # there) and the world run, each with common scale factors across the generator's range (0.01 .. 10: the largest rows cross 1e9 and 1e8 going down), on EVERY human round
+    scales = [dict(kind="scale", month=0, amount=0.1, scale=f) for f in (0.01, 0.1, 0.5, 10.0)]   # the generator's range
+    more = [dict(kind="meat_stock", month=0, amount=0.5, scale=1.0), dict(kind="feed_charge", month=1, amount=0.5, scale=1.0)]
+    cases = model.extreme_cases(shutoff="continued") + [("WOR", dict(model.BASELINE_COUNTRY, scale="global", seasonality="nuclear_winter_globally",
+                                                  waste="baseline_globally", grasses="global_nuclear_winter", crop_disruption="global_nuclear_winter",
+                                                  fish="nuclear_winter", scenario="all_resilient_foods", shutoff="continued", NMONTHS=72))]
+
+    # ... and the largest rows once more with an undisturbed climate, where the final round does carry a feed and biofuel charge
+    big = model.extreme_rows()[-1]
+    cases += [(big, dict(model.BASELINE_COUNTRY, shutoff="continued", NMONTHS=48)),
+              ("WOR", dict(model.BASELINE_COUNTRY, scale="global", seasonality="baseline_globally", waste="baseline_globally", shutoff="continued", NMONTHS=48))]
+
+    def fixed(iso, o, k):
+        r = model.run_case(iso, o, title="c12x_%s" % iso)
+        if not r["ok"]:
+            ctx.abort("%s@%s" % (r["exc_type"], r["exc_frame"]))
+            return
+        humans = [cap for cap in r["cap"].opt if cap["type"] == "to_humans"]
+        for which, cap in enumerate(humans):
+            for p in scales + more:
+                judge(ctx, iso, o, which, cap, p)
+    model.run_fixed(ctx, cases, fixed)
 
 
 def replay(case, ctx):
